@@ -147,6 +147,8 @@ impl Prop for C18 {
         match scope {
             "switches" => {
                 let mut reference: Option<Vec<String>> = None;
+                let mut parts: std::collections::BTreeMap<String, (u8, String)> = Default::default();
+                let mut root_attrs: Option<Vec<(String, String)>> = None;
                 for m in 0..8u8 {
                     let s = Sett { backdrop: m & 1 != 0, styles: m & 2 != 0, defs: m & 4 != 0, ..Sett::default_() };
                     let out = match cx.conv(input, &s) {
@@ -172,6 +174,31 @@ impl Prop for C18 {
                     if h != want {
                         cx.fail("switch-elements", format!("switches backdrop={} styles={} defs={}: leading elements {:?} expected {:?}", s.backdrop, s.styles, s.defs, h, want));
                         return;
+                    }
+                    // each switch adds or removes exactly its own element: the element itself is the same in every combination
+                    for e in t.root.elems().take(want.len()) {
+                        let mut dump = String::new();
+                        xmlmini::dump(e, &mut dump);
+                        match parts.get(&e.name) {
+                            None => {
+                                parts.insert(e.name.clone(), (m, dump));
+                            }
+                            Some((m0, d0)) => {
+                                if *d0 != dump {
+                                    cx.fail("switch-elements", format!("the <{}> element differs between switch combination {:03b} and {:03b} (bits: defs, styles, backdrop): the canonical forms ({} and {} bytes) first differ at byte {}", e.name, m0, m, d0.len(), dump.len(), d0.bytes().zip(dump.bytes()).position(|(a, b)| a != b).unwrap_or(d0.len().min(dump.len()))));
+                                    return;
+                                }
+                            }
+                        }
+                    }
+                    match &root_attrs {
+                        None => root_attrs = Some(t.root.attrs.clone()),
+                        Some(a) => {
+                            if *a != t.root.attrs {
+                                cx.fail("switch-elements", format!("switches backdrop={} styles={} defs={} changed the attributes of the root element", s.backdrop, s.styles, s.defs));
+                                return;
+                            }
+                        }
                     }
                     let b = body(&t.root);
                     match &reference {
